@@ -27,4 +27,11 @@ VARIANTS += [
       "    y = y0 + (t - t0) / (t1 - t0) * (y1 - y0)\n", rule="R12.8"),
     V("twin-interp-weights", "torchsde/_core/interp.py", "    y = (t1 - t) / (t1 - t0) * y0 + (t - t0) / (t1 - t0) * y1\n",
       "    w = (t - t0) / (t1 - t0)\n    y = (1 - w) * y0 + w * y1\n", expect="silent"),
+    # outputs assembled in a preallocated tensor: same values, but a fixed dtype converts the loop state on the way out
+    V("outputs-in-buffer-of-y0-dtype", CORE + "base_solver.py", "        ys = [y0]\n",
+      "        ys = torch.empty(len(ts), *y0.shape, dtype=y0.dtype, device=y0.device)\n        ys[0] = y0\n", rule="R13.6",
+      more=(("        for out_t in ts[1:]:\n", "        for i, out_t in enumerate(ts[1:], start=1):\n"),
+            ("            ys.append(interp.linear_interp(t0=prev_t, y0=prev_y, t1=curr_t, y1=curr_y, t=out_t))\n",
+             "            ys[i] = interp.linear_interp(t0=prev_t, y0=prev_y, t1=curr_t, y1=curr_y, t=out_t)\n"),
+            ("        return torch.stack(ys, dim=0), curr_extra\n", "        return ys, curr_extra\n"))),
 ]
